@@ -100,13 +100,8 @@ func runScriptWall(c *rig.Ctx, cs Case) *failure {
 			said, swapped := g.reconfigure(*op.RQ, *op.RB, op.Variant)
 			changed := *op.RQ != q || *op.RB != b
 			q, b = *op.RQ, *op.RB
-			if said != nil && *said != changed && f == nil {
-				f = &failure{"judge", "c06.resize.answer", fmt.Sprintf("op %d: Resize(%d,%d) answered %v, parameters changed=%v", i, q, b, *said, changed), nil, nil}
-			}
-			if g.trackable && swapped != changed && f == nil {
-				f = &failure{"judge", "c06.resize", fmt.Sprintf("op %d: reconfiguration to (%d,%d): parameters changed=%v but the limiter was replaced=%v", i, q, b, changed, swapped), nil, nil}
-			}
-			if swapped || changed {
+			_, _, _ = said, swapped, i // what Resize answers and which object serves are not judged (see judge.go)
+			if changed {
 				cur = &wallSeg{QPS: q, Burst: b, Fresh: true, T0: before, T1: before}
 				segs = append(segs, cur)
 			}
